@@ -336,7 +336,7 @@ def sweep(ctx):
                 ctx.tally('move_raised', f"{r['op']}:{r['raised']}")
             else:
                 mn += 1
-                ctx.count(('m', r['case'][1], r['case'][2], r['op']), True)
+                ctx.count(('m', tuple(r['case'][1:]), r['op']), True)
                 ctx.tally('move_op', r['op'])
                 if 'fail' in r:
                     ctx.fail(c01_targets.move_signature(r), f"{r['op']} of {c01_targets.MOVE_STMTS[r['case'][1]]!r} in {r['src']!r} -> {r.get('after')!r}: {r['fail'][:200]}", r)
